@@ -41,6 +41,7 @@ import (
 
 	bothan "github.com/bandprotocol/bothan/bothan-api/client/go-client/proto/bothan/v1"
 
+	band "github.com/bandprotocol/chain/v3/app"
 	"github.com/bandprotocol/chain/v3/grogu/signaller"
 	"github.com/bandprotocol/chain/v3/grogu/submitter"
 	"github.com/bandprotocol/chain/v3/pkg/logger"
@@ -487,6 +488,7 @@ func RunOne(o core.RunOpts) (res *core.RunResult) {
 		a, _ := rec.GetAddress()
 		feeders = append(feeders, a)
 	}
+	intervalParams, intervalParamsDone := ch.Bool("cfg.intervalparams", 350), false
 	var blockTime time.Time
 	nextBlock := func(t time.Time) *world.BlockRecord {
 		blockTime = t
@@ -719,6 +721,25 @@ func RunOne(o core.RunOpts) (res *core.RunResult) {
 					if ch.Bool("world.revote", 15) {
 						vote(1 + ch.Intn("revote.n", 4))
 						st.Fault("feed_list_change_by_vote")
+					}
+					if intervalParams && !intervalParamsDone && ch.Bool("world.intervalparams", 25) {
+						// governance lengthens the interval range: the intervals of the CURRENT feed list stay as they are until the
+						// list is recomputed, and those are the ones the chain holds the validator to
+						np := app.FeedsKeeper.GetParams(w.ReadCtx())
+						if ch.Bool("world.intervalparams.max", 600) {
+							np.MaxInterval *= int64(2 + ch.Intn("world.intervalparams.f", 3))
+						} else {
+							np.MinInterval *= int64(2 + ch.Intn("world.intervalparams.f", 3))
+							if np.MaxInterval < np.MinInterval {
+								np.MaxInterval = np.MinInterval
+							}
+						}
+						if np.Validate() == nil {
+							if err := w.ApplyInterOp(func(a *band.BandApp, ctx sdk.Context) error { return a.FeedsKeeper.SetParams(ctx, np) }); err == nil {
+								intervalParamsDone = true
+								st.Fault("feed_interval_parameters_lengthened_by_governance")
+							}
+						}
 					}
 				}
 				// ---- produce a block at the fake time ------------------------------------------------
